@@ -35,7 +35,7 @@ def inject(fmt, lines, cls, i=0):
         lines[2] = "x" + lines[2][1:]
     elif cls in ("non-numeric", "non-numeric-after-signed"):
         cols = lines[0].split("\t")
-        j = {"vcf": 1, "sam": 3, "gtf": 3}.get(fmt, 1)
+        j = {"vcf": 1, "sam": 3, "gtf": 3, "gffc": 3}.get(fmt, 1)
         cols[j] = "x" + cols[j][1:] if len(cols[j]) > 1 or True else cols[j]
         lines[0] = "\t".join(cols)
     elif cls == "column-count":
@@ -73,7 +73,7 @@ def build(fmt, specs, bad, cls, crlf, finalnl):
             cols = lines[0].split("\t")
             cols[1] = "+" + cols[1]
             lines = ["\t".join(cols)] + lines[1:]
-        body.append("".join(l + nl for l in lines))
+        body.append("".join(l + nl for l in lines) + (("###" + nl) * (1 + i % 2) if f.get("interior_comments") else ""))
         rows.append(exp)
         elines.append(len(lines))
     text = "".join(body)
@@ -178,7 +178,7 @@ def check_vector(v):
 # ------------------------------------------------------------------------------------------------ binding B
 BSETS = [("bed6", ["bad-symbol", "non-numeric", "non-numeric-after-signed", "non-numeric-score", "column-count", "extra-column", "double-columns"]),
          ("narrowpeak", ["non-numeric-float", "bad-symbol"]),
-         ("vcf", ["non-numeric"]), ("bedgraph", ["non-numeric", "non-numeric-after-signed"]), ("bed3", ["non-numeric", "column-count", "extra-column", "double-columns"]),
+         ("vcf", ["non-numeric"]), ("gffc", ["non-numeric"]), ("bedgraph", ["non-numeric", "non-numeric-after-signed"]), ("bed3", ["non-numeric", "column-count", "extra-column", "double-columns"]),
          ("fastq", ["no-marker", "no-plus"]), ("fasta2", ["no-marker"])]
 
 
